@@ -224,6 +224,15 @@ func nested(depth int) []byte {
 	return msgBytes(inner, abs.VCmd, abs.VApp, 0x80)
 }
 
+// siblings: one grouped AVP holding n empty grouped AVPs side by side
+func siblings(n int) []byte {
+	var kids []byte
+	for i := 0; i < n; i++ {
+		kids = append(kids, rawAVP(9018, 0x40, 0, 8, nil, false)...)
+	}
+	return msgBytes(rawAVP(9018, 0x40, 0, 8+len(kids), kids, false), abs.VCmd, abs.VApp, 0x80)
+}
+
 func runFlood(dp *dict.Parser, out *Out) {
 	const per = 40000
 	var wg sync.WaitGroup
@@ -376,6 +385,11 @@ func Robust(a Args) error {
 	for _, depth := range []int{1, 2, 4, 16, 64, 256, 1024} {
 		id++
 		runRobust(id, nested(depth), "nested-groups-depth", vp, out, slow)
+		gcEvery()
+	}
+	for _, n := range []int{8, 64, 512, 1024} {
+		id++
+		runRobust(id, siblings(n), "sibling-groups", vp, out, slow)
 		gcEvery()
 	}
 	// random byte strings
